@@ -112,7 +112,9 @@ func ruleC01ProvenanceEncrypt(c *Ctx) {
 	}
 	_, fld, _ := fieldAccess(ikCall.Call.Value)
 	c.check(isIKID(ikCall.Call.Args[0]) && fld == "ikCache", name+"/ik-lookup", u.ipos(ikCall), "IK obtained from ikCache.GetOrLoadLatest(partition.IntermediateKeyID())", "the key used to wrap DRKs is not looked up in the IK cache under the partition's IntermediateKeyID()")
-	c.check(isIKID(pkm["ID"]), name+"/parent-id", u.ipos(drr), "ParentKeyMeta.ID = partition.IntermediateKeyID()", "the record's ParentKeyMeta.ID is not the id the IK was looked up under: decrypt will look for another key")
+	pkmID, pkmKey, _ := keyMetaParts(key["ParentKeyMeta"])
+	_ = pkm
+	c.check(pkmID != nil && isIKID(pkmID), name+"/parent-id", u.ipos(drr), "ParentKeyMeta.ID = partition.IntermediateKeyID()", "the record's ParentKeyMeta.ID is not the id the IK was looked up under: decrypt will look for another key")
 	// symbolic values of the two ciphertext fields (independent of whether the AEAD calls are inline closures or helpers)
 	root := &symEnv{fn: f, params: map[*ssa.Parameter]*term{}}
 	tKey := symEval(key["EncryptedKey"], root, 0)
@@ -128,8 +130,8 @@ func ruleC01ProvenanceEncrypt(c *Ctx) {
 	c.check(wrapOK, name+"/wrapped-drk", u.ipos(drr), "Key.EncryptedKey = "+tKey.String(), "Key.EncryptedKey is not the DRK's bytes encrypted under the bytes of the intermediate key the record names as parent: "+tKey.String())
 	// ParentKeyMeta.Created = Created() of that same key value
 	pcOK := false
-	if cv, ok := resolve(pkm["Created"]).(*ssa.Call); ok && methodNameOf(&cv.Call) == "Created" {
-		pcOK = cachedKeyBase(resolve(receiverOf(&cv.Call))) == ik || resolve(receiverOf(&cv.Call)) == ik
+	if pkmKey != nil {
+		pcOK = cachedKeyBase(pkmKey) == ik || pkmKey == ik
 	}
 	c.check(pcOK, name+"/parent-created", u.ipos(drr), "ParentKeyMeta.Created = Created() of the key whose bytes wrapped the DRK", "ParentKeyMeta.Created is not taken from the intermediate key that wrapped the DRK (e.g. the DRK's or another key's stamp): the record points at a key version that cannot unwrap it")
 	// Data = enc(val(payload), bytes(DRK))
@@ -198,7 +200,27 @@ func ruleC01ProvenanceDecrypt(c *Ctx) {
 		c.FuncsAnalysed[shortName(dr)] = true
 		good := false
 		why := "decryptRow does not unwrap Key.EncryptedKey with the IK bytes and decrypt Data with the result"
-		for _, af := range dr.AnonFuncs {
+		for _, af0 := range dr.AnonFuncs {
+			// the closure itself, or the helper it hands the IK bytes to
+			af, ikIdx := af0, 0
+			if !containsInstr(af0, func(i ssa.Instruction) bool { return invokeIs(i, pkgApp, "AEAD", "Decrypt") }) {
+				allInstrs(af0, func(i ssa.Instruction) {
+					cv, ok := i.(*ssa.Call)
+					if !ok {
+						return
+					}
+					h := staticCallee(cv)
+					if h == nil || h.Blocks == nil || h.Pkg == nil || h.Pkg.Pkg.Path() != pkgApp {
+						return
+					}
+					for k, a := range cv.Call.Args {
+						if isParamNamed(a, af0, 0) && k < len(h.Params) && containsInstr(h, func(j ssa.Instruction) bool { return invokeIs(j, pkgApp, "AEAD", "Decrypt") }) {
+							af, ikIdx = h, k
+							c.FuncsAnalysed[shortName(h)] = true
+						}
+					}
+				})
+			}
 			var unwrap, dec *ssa.Call
 			allInstrs(af, func(i ssa.Instruction) {
 				if !invokeIs(i, pkgApp, "AEAD", "Decrypt") {
@@ -219,13 +241,13 @@ func ruleC01ProvenanceDecrypt(c *Ctx) {
 			for _, pr := range resultsOfType(unwrap, isByteSlice) {
 				drkV = pr[0]
 			}
-			okIK := isParamNamed(unwrap.Call.Args[1], af, 0)
+			okIK := isParamNamed(unwrap.Call.Args[1], af, ikIdx)
 			okData := drkV != nil && strip(dec.Call.Args[1]) == drkV
 			// accessor is on the ik parameter
 			okAcc := false
 			allInstrs(dr, func(i ssa.Instruction) {
 				if cv, isCall := i.(*ssa.Call); isCall {
-					if act, isAcc := accessorAction(cv); isAcc && actionFunc(act) == af && isParamNamed(callArgs(&cv.Call)[0], dr, 0) {
+					if act, isAcc := accessorAction(cv); isAcc && actionFunc(act) == af0 && isParamNamed(callArgs(&cv.Call)[0], dr, 0) {
 						okAcc = true
 					}
 				}
@@ -297,19 +319,27 @@ func ruleC01ProvenanceDecrypt(c *Ctx) {
 			}
 		})
 		unwrapOK := false
-		for _, g := range withAnon(f) {
-			allInstrs(g, func(i ssa.Instruction) {
-				if invokeIs(i, pkgApp, "AEAD", "Decrypt") || invokeIs(i, pkgApp, "KeyManagementService", "DecryptKey") {
-					cc := callOf(i)
-					arg := cc.Args[0]
-					if invokeIs(i, pkgApp, "KeyManagementService", "DecryptKey") {
-						arg = cc.Args[1]
+		var ekrParam *ssa.Parameter
+		for _, p := range f.Params {
+			if p.Name() == "ekr" {
+				ekrParam = p
+			}
+		}
+		for _, fr := range paramFrames(f, ekrParam, 0) {
+			for _, g := range withAnon(fr.f) {
+				allInstrs(g, func(i ssa.Instruction) {
+					if invokeIs(i, pkgApp, "AEAD", "Decrypt") || invokeIs(i, pkgApp, "KeyManagementService", "DecryptKey") {
+						cc := callOf(i)
+						arg := cc.Args[0]
+						if invokeIs(i, pkgApp, "KeyManagementService", "DecryptKey") {
+							arg = cc.Args[1]
+						}
+						if strings.HasSuffix(accessPath(arg), "P:"+fr.p.Name()+".EncryptedKey") {
+							unwrapOK = true
+						}
 					}
-					if strings.HasSuffix(accessPath(arg), "P:ekr.EncryptedKey") {
-						unwrapOK = true
-					}
-				}
-			})
+				})
+			}
 		}
 		c.check(good && unwrapOK, shortName(f)+"/record-to-key", u.pos(f.Pos()), "key = unwrap(ekr.EncryptedKey) with ekr.Created / ekr.Revoked", "the key built from a record does not carry that record's EncryptedKey/Created/Revoked")
 	}
@@ -339,6 +369,27 @@ func ruleC01OldKeysAddressable(c *Ctx) {
 				cc := callOf(i)
 				if strings.HasSuffix(accessPath(cc.Args[0]), mp+".ID") && strings.HasSuffix(accessPath(cc.Args[1]), mp+".Created") {
 					hit = true
+				}
+				// both fields of ONE KeyMeta variable into which the meta parameter is stored (possibly replaced by the
+				// mapped latest meta on the IsLatest edge)
+				base := func(v ssa.Value, fld string) *ssa.Alloc {
+					ld, ok := v.(*ssa.UnOp)
+					if !ok || ld.Op != token.MUL {
+						return nil
+					}
+					fa, ok := ld.X.(*ssa.FieldAddr)
+					if !ok || fieldName(fa.X.Type(), fa.Field) != fld {
+						return nil
+					}
+					a, _ := fa.X.(*ssa.Alloc)
+					return a
+				}
+				if b0, b1 := base(cc.Args[0], "ID"), base(cc.Args[1], "Created"); b0 != nil && b0 == b1 {
+					for _, r := range *b0.Referrers() {
+						if st, isS := r.(*ssa.Store); isS && st.Addr == ssa.Value(b0) && accessPath(st.Val) == mp {
+							hit = true
+						}
+					}
 				}
 				return
 			}
@@ -751,4 +802,102 @@ func ruleC01NoExtraGateOnRead(c *Ctx) {
 	if n < 3 {
 		c.bad("DecryptDataRowRecord/own-errors", "", fmt.Sprintf("expected at least 3 structural refusals (Key, ParentKeyMeta, partition), found %d", n))
 	}
+}
+
+// paramFrame: a function together with the parameter through which it receives a given value of the analysed
+// function: the function itself with its own parameter, and every same-package helper that is handed that parameter
+// unchanged (transitively, depth ≤ 2).
+type paramFrame struct {
+	f *ssa.Function
+	p *ssa.Parameter
+}
+
+func paramFrames(f *ssa.Function, p *ssa.Parameter, depth int) []paramFrame {
+	if f == nil || p == nil {
+		return nil
+	}
+	out := []paramFrame{{f, p}}
+	if depth >= 2 {
+		return out
+	}
+	seen := map[*ssa.Function]bool{f: true}
+	for _, g := range withAnon(f) {
+		allInstrs(g, func(i ssa.Instruction) {
+			cv, ok := i.(*ssa.Call)
+			if !ok {
+				return
+			}
+			h := staticCallee(cv)
+			if h == nil || h.Blocks == nil || h.Pkg == nil || rootFunc(f).Pkg == nil || h.Pkg != rootFunc(f).Pkg || seen[h] {
+				return
+			}
+			for k, a := range cv.Call.Args {
+				if k < len(h.Params) && (resolve(a) == ssa.Value(p) || trimAddr(accessPath(a)) == "P:"+p.Name()) {
+					seen[h] = true
+					out = append(out, paramFrames(h, h.Params[k], depth+1)...)
+				}
+			}
+		})
+	}
+	return out
+}
+
+// keyMetaParts: v is a *KeyMeta / KeyMeta value built as a literal {ID: <id>, Created: <k>.Created()} — here, or by a
+// same-package helper handed the id and the key. Returns the id value and the key whose Created() is used, both in the
+// frame of v.
+func keyMetaParts(v ssa.Value) (id ssa.Value, createdOfKey ssa.Value, ok bool) {
+	unbox := func(x ssa.Value) ssa.Value {
+		for k := 0; k < 3; k++ {
+			switch y := x.(type) {
+			case *ssa.MakeInterface:
+				x = y.X
+			case *ssa.ChangeInterface:
+				x = y.X
+			case *ssa.ChangeType:
+				x = y.X
+			}
+		}
+		return resolve(x)
+	}
+	fromLit := func(fl map[string]ssa.Value) (ssa.Value, ssa.Value, bool) {
+		if fl == nil || fl["ID"] == nil || fl["Created"] == nil {
+			return nil, nil, false
+		}
+		cv, isC := resolve(fl["Created"]).(*ssa.Call)
+		if !isC || methodNameOf(&cv.Call) != "Created" {
+			return fl["ID"], nil, true
+		}
+		return fl["ID"], unbox(receiverOf(&cv.Call)), true
+	}
+	if i, k, good := fromLit(litFields(resolve(v))); good {
+		return i, k, true
+	}
+	cv, isC := resolve(v).(*ssa.Call)
+	if !isC {
+		return nil, nil, false
+	}
+	h := staticCallee(cv)
+	if h == nil || h.Blocks == nil || h.Pkg == nil || cv.Parent() == nil || h.Pkg != rootFunc(cv.Parent()).Pkg {
+		return nil, nil, false
+	}
+	rets := returnsOf(h)
+	if len(rets) != 1 || len(rets[0].Results) != 1 {
+		return nil, nil, false
+	}
+	hi, hk, good := fromLit(litFields(resolve(returnedValue(rets[0], 0))))
+	if !good || hk == nil {
+		return nil, nil, false
+	}
+	for a, p := range h.Params {
+		if a >= len(cv.Call.Args) {
+			continue
+		}
+		if resolve(hi) == ssa.Value(p) {
+			id = cv.Call.Args[a]
+		}
+		if hk == ssa.Value(p) {
+			createdOfKey = unbox(cv.Call.Args[a])
+		}
+	}
+	return id, createdOfKey, id != nil && createdOfKey != nil
 }
